@@ -250,14 +250,17 @@ where
                 .write_throughput
                 .map(|v| RateLimiter::new(v.get() as _));
             for piece in pieces {
-                let bytes = store.entry_estimated_size(piece.key(), piece.value());
-                if let Some(throttler) = &throttler {
-                    let wait = throttler.consume(bytes as _);
-                    if !wait.is_zero() {
-                        tokio::time::sleep(wait).await
+                // Entries advised in-memory-only never reach the disk cache, same as `send`.
+                if piece.properties().location() != Location::InMem {
+                    let bytes = store.entry_estimated_size(piece.key(), piece.value());
+                    if let Some(throttler) = &throttler {
+                        let wait = throttler.consume(bytes as _);
+                        if !wait.is_zero() {
+                            tokio::time::sleep(wait).await
+                        }
                     }
+                    store.enqueue(piece, false);
                 }
-                store.enqueue(piece, false);
             }
         })
     }
